@@ -1,4 +1,4 @@
-from props.smtpcommon import project, nontrivial, shrink_candidates  # noqa: F401
+from props.smtpcommon import post, project, nontrivial, shrink_candidates  # noqa: F401
 
 ID = "C01"
 LEVEL = "proof"
